@@ -1,8 +1,13 @@
 #![no_main]
 //! arbitrary bytes -> every decoding entry point under the C04 monitors, plus the C03 parity
 //! oracle whenever the independent reference decoder accepts the bytes as a valid stream
-use libfuzzer_sys::fuzz_target;
+use libfuzzer_sys::{fuzz_mutator, fuzz_target, fuzzer_mutate};
 
 fuzz_target!(|data: &[u8]| {
     flacmon::fuzzbridge::decode(data);
+});
+
+// checksum-preserving mutations (see fuzzbridge::mutate_decode)
+fuzz_mutator!(|data: &mut [u8], size: usize, max_size: usize, seed: u32| {
+    flacmon::fuzzbridge::mutate_decode(data, size, max_size, seed, |d, s, m| fuzzer_mutate(d, s, m))
 });
